@@ -189,15 +189,21 @@ def debug_logging():
 
 
 def accumulated_strain(sc, times=None, sub=400):
-    """integral of the max |principal strain rate| along the path (tensorial strain)"""
-    ts = times_of(sc) if times is None else times
+    """integral of the max |principal strain rate| along the path (tensorial strain), summed over the intervals of the partition
+    (so that reversed and forward-then-back partitions accumulate what they traverse)"""
+    ts = np.asarray(times_of(sc) if times is None else times, float)
     fld = sc["field"]
-    tt = np.linspace(ts[0], ts[-1], sub + 1)
-    vals = []
-    for t in tt:
-        L = fld(t, fld.pos(t))
-        vals.append(np.abs(np.linalg.eigvalsh((L + L.T) / 2)).max())
-    return abs(float(np.trapezoid(vals, tt)))   # |.|: reversed partitions integrate backwards
+    monotone = np.all(np.diff(ts) >= 0) or np.all(np.diff(ts) <= 0)
+    pieces = [(ts[0], ts[-1])] if monotone else list(zip(ts[:-1], ts[1:]))
+    total = 0.0
+    for a, b in pieces:
+        tt = np.linspace(a, b, (sub if monotone else max(20, sub // len(pieces))) + 1)
+        vals = []
+        for t in tt:
+            L = fld(t, fld.pos(t))
+            vals.append(np.abs(np.linalg.eigvalsh((L + L.T) / 2)).max())
+        total += abs(float(np.trapezoid(vals, tt)))
+    return total
 
 
 def reference_F(sc, t_end=None, sub=4000):
